@@ -23,7 +23,7 @@ import traceback
 
 import vf  # noqa: F401
 from vf import talref
-from vf.checks.c17 import StepBudget
+from vf.checks.c17 import DoesNotTerminate, StepBudget
 from vf.common import Check, Scratch, main_wrapper, run_shards
 
 from simpletal import simpleTAL, simpleTALES  # noqa: E402
@@ -55,6 +55,13 @@ class Audit:
 def site_of(e: BaseException) -> str:
     tb = traceback.extract_tb(e.__traceback__)
     return "%s@%s" % (type(e).__name__, next((f.name for f in reversed(tb) if "simpletal" in f.filename), "?"))
+
+
+def report_exception(chk: Check, e: BaseException, detail: dict) -> None:
+    if isinstance(e, DoesNotTerminate):     # not what C18 states: never folded into held or violated
+        chk.note_inconclusive("an expansion exceeded the step guard (%s)" % e)
+    else:
+        chk.witness("C18/exception:" + site_of(e), dict(detail, message=str(e)[:200]))
 
 
 def new_context(values: dict, allow_python: int = 0):
@@ -99,7 +106,7 @@ def canary_case(chk: Check, i: int) -> None:
         out_h = expand(page, new_context(hostile.build()), lib)
         out_i = expand(page, new_context(hostile.inert().build()), lib)
     except Exception as e:
-        chk.witness("C18/exception:" + site_of(e), dict(detail, message=str(e)[:200]))
+        report_exception(chk, e, detail)
         return
     ev_h = talref.events(out_h)
     bad = injected(ev_h)
@@ -161,14 +168,16 @@ def python_cases(chk: Check, scratch: Scratch, count: int) -> None:
     sdir = scratch.sub("py")
     for n in range(count):
         tpl, pos, effect, target = python_template(rng, n, sdir)
-        for allow in (0, 1):
+        # disabled, enabled, and disabled again: the same expression text must stay refused after an
+        # enabled context in the same process has evaluated it (no state shared between contexts)
+        for allow in (0, 1, 0):
             hits: list = []
             ctx = new_context({"hits": hits, "two": [1, 2], "one": 1}, allow)
             Audit.events, Audit.armed = 0, True
             try:
                 out = expand(tpl, ctx)
             except Exception as e:
-                chk.witness("C18/exception:" + site_of(e), {"sub": "python", "template": tpl, "allow": allow})
+                report_exception(chk, e, {"sub": "python", "template": tpl, "allow": allow})
                 continue
             finally:
                 Audit.armed = False
@@ -201,6 +210,7 @@ def handler_cases(chk: Check, scratch: Scratch, count: int) -> None:
 
     rng = chk.subrng("handler")
     root, sdir = scratch.sub("root"), scratch.sub("hpy")
+    replay: list = []
     for setting, expect in (("false", False), ("true", True)):
         site = driver.Site(root, handlers=HANDLERS,
                            overrides={("handlers.tal.TALFileHandler", "allowpythonpath"): setting})
@@ -238,9 +248,35 @@ def handler_cases(chk: Check, scratch: Scratch, count: int) -> None:
                 elif os.path.lexists(target):
                     os.unlink(target)
                 os.unlink(os.path.join(root, name))
+                if expect:
+                    replay.append((name, tpl, pos, target))
                 chk.case(("handler", pos, effect, setting), None)
         finally:
             site.close()
+    # the very templates that were just evaluated with the option on, now with the option off
+    site = driver.Site(root, handlers=HANDLERS, overrides={("handlers.tal.TALFileHandler", "allowpythonpath"): "false"})
+    try:
+        for name, tpl, pos, target in replay:
+            with open(os.path.join(root, name), "w") as fp:
+                fp.write(tpl)
+            Audit.events, Audit.armed = 0, True
+            try:
+                resp = site.request(b"/" + name.encode() + b"\r\n")
+            finally:
+                Audit.armed = False
+            happened = os.path.lexists(target)
+            chk.count("handler_requests_off_after_on")
+            if happened or Audit.events:
+                chk.witness("C18/python-evaluated-through-TALFileHandler-with-allowpythonpath-false", {
+                    "sub": "handler-off-after-on", "case_seed": chk.seed, "template": tpl, "position": pos,
+                    "side_effect_observed": happened, "audit_events": Audit.events, "response": resp.data[:300]})
+            if os.path.isdir(target):
+                os.rmdir(target)
+            elif os.path.lexists(target):
+                os.unlink(target)
+            os.unlink(os.path.join(root, name))
+    finally:
+        site.close()
 
 
 # --------------------------------------------------------------- (c) pass-through ----
@@ -297,7 +333,7 @@ def restore_case(chk: Check, i: int) -> None:
         before = snapshot(ctx)
         tpls["page"].expand(ctx, io.StringIO())
     except Exception as e:
-        chk.witness("C18/exception:" + site_of(e), dict(detail, message=str(e)[:200]))
+        report_exception(chk, e, detail)
         return
     after = snapshot(ctx)
     chk.count("contexts_snapshotted")
@@ -330,8 +366,8 @@ ASSUMPTIONS = [
     "inert twin of a hostile context = same shape with every non-alphanumeric character replaced by x",
     "document grammar never produces stray end tags (a documented compile error), <![CDATA[, or "
     "script/style content with markup metacharacters outside the keyed risky class",
-    "an expansion needing more than 200,000 interpreter steps is reported as non-terminating "
-    "(generated cases need fewer than 10^4)",
+    "an expansion needing more than 20,000,000 interpreter steps makes the run inconclusive "
+    "(generated cases need fewer than 10^4, the heaviest seen about 10^6)",
 ]
 
 
